@@ -502,6 +502,9 @@ class Machine(TreeEval):
             b = self._named_bytes(e[1])
             if b is not None:
                 return ("bytes", b.decode("latin-1"))
+            v = self._typed_const(e[1])
+            if v is not None:
+                return v
         if k == "lit":
             return e[1]
         if k in ("tbl", "index") and e[1][0] == "named":
@@ -1030,6 +1033,62 @@ class Machine(TreeEval):
             return raw
         return None
 
+    def _typed_const(self, name):
+        """A constant array of tuples / plain values decoded through the layout the compiler reports (a sequence), or None."""
+        c = self.facts.consts.get(name)
+        if not c or "mem" not in c.get("v", {}):
+            return None
+        t = self.facts.types[c["ty"]]
+        if t.get("k") != "array":
+            return None
+        a = self.facts.allocs.get(str(c["v"]["mem"]["alloc"]))
+        if a is None:
+            return None
+        raw = bytes.fromhex(a["bytes"])
+        relocs = {int(o): tg for o, tg in a.get("relocs", [])}
+        base = int(c["v"]["mem"].get("off", 0))
+        n = int(t["len"])
+        if n == 0:
+            return ("iter", "seq", (), 0)
+        esize = c["v"]["size"] // n
+        try:
+            return ("iter", "seq", tuple(self._decode(t["of"], raw, relocs, base + i * esize) for i in range(n)), 0)
+        except Unsupported:
+            return None
+
+    def _decode(self, ti, raw, relocs, off):
+        t = self.facts.types[ti]
+        k = t.get("k")
+        if k == "int":
+            w = int(t["w"]) // 8
+            return int.from_bytes(raw[off:off + w], "little")
+        if k in ("bool", "char"):
+            w = 1 if k == "bool" else 4
+            return int.from_bytes(raw[off:off + w], "little")
+        if k == "tuple" and t.get("offsets") is not None:
+            return ("agg", "tuple", tuple(self._decode(x, raw, relocs, off + int(o)) for x, o in zip(t["of"], t["offsets"])))
+        if k == "ref":
+            to = self.facts.types[t["to"]]
+            tg = relocs.get(off)
+            if to.get("k") == "str" and isinstance(tg, dict) and "alloc" in tg:
+                n = int.from_bytes(raw[off + 8:off + 16], "little")
+                a = self.facts.allocs.get(str(tg["alloc"]))
+                if a is not None:
+                    o = int(tg.get("off", 0))
+                    return ("str", bytes.fromhex(a["bytes"])[o:o + n].decode("utf-8", "replace"))
+            raise Unsupported("constant reference")
+        if k == "adt":
+            a = self.facts.adts.get(t.get("key")) or self.facts.adts.get(t.get("path"))
+            if a and a["kind"] == "enum" and all(not v["fields"] for v in a["variants"]) and a.get("size") in (1, 2, 4, 8):
+                return int.from_bytes(raw[off:off + int(a["size"])], "little")
+            if a and a["kind"] == "struct" and a.get("offsets") is not None and len(a["variants"]) == 1:
+                fs = a["variants"][0]["fields"]
+                vals = tuple(self._decode(f["ty"], raw, relocs, off + int(o)) for f, o in zip(fs, a["offsets"]))
+                if len(vals) == 1 and isinstance(vals[0], int):
+                    return vals[0]                     # transparent newtype
+                return ("agg", a["variants"][0]["name"], vals, a["path"])
+        raise Unsupported("constant of type %s" % (t.get("n") or k))
+
     def _str_table(self, name, i):
         """Element i of a constant `[&str; N]` (fat pointers with relocations), or None if the table is not one."""
         try:
@@ -1107,16 +1166,18 @@ def run_function(facts, fn, params, mem=None, oracle=None, deref_self=False, inp
 
 
 def _self_mem(place, m):
-    """A read through a by-reference parameter that holds a plain value: the place is resolved inside that value."""
+    """A read through a by-reference parameter (or a reference a call returned) that holds a plain value: the place is resolved
+    inside that value."""
+    def get(x):
+        return val(x) if x[0] in ("deref", "ref", "downcast", "field") else m.ev(x)
+
     def val(p):
         if p[0] == "deref" and p[1][0] == "param":
             return m.ev(p[1])
-        if p[0] == "deref":
-            return val(p[1])
-        if p[0] == "ref":
-            return val(p[1])
+        if p[0] in ("deref", "ref"):
+            return get(p[1])
         if p[0] == "downcast":
-            v = val(p[1])
+            v = get(p[1])
             while (isinstance(v, tuple) and len(v) == 4 and v[0] == "agg" and v[1] != p[2] and len(v[2]) == 1
                    and isinstance(v[2][0], tuple) and v[2][0][:1] == ("agg",)):
                 v = v[2][0]                            # a newtype around the enum: `.0` is dropped from places
@@ -1124,7 +1185,7 @@ def _self_mem(place, m):
                 return v[2][0] if len(v[2]) == 1 else v      # same convention as expressions: a one-field variant is its payload
             raise Unsupported("downcast of %r to %s" % (v, p[2]))
         if p[0] == "field":
-            v = val(p[1])
+            v = get(p[1])
             if isinstance(v, int) and str(p[2]) == "0":
                 return v                               # transparent newtype
             if p[1][0] == "downcast" and not (isinstance(v, tuple) and v[:1] == ("agg",) and len(v) == 4 and v[1] == p[1][2]):
